@@ -38,7 +38,13 @@ def pretty_attrs(value, ctx):
                 display_attr = True
 
         if display_attr:
-            kwargs.append((attribute.name, getattr(value, attribute.name)))
+            # The constructor takes a private attribute without its
+            # leading underscores (attrs records the name as `alias`).
+            init_name = (
+                getattr(attribute, 'alias', None) or
+                attribute.name.lstrip('_')
+            )
+            kwargs.append((init_name, getattr(value, attribute.name)))
 
     return pretty_call_alt(ctx, cls, kwargs=kwargs)
 
